@@ -165,6 +165,8 @@ fn cmd_run(a: &Args) {
     let mut st = Stats::default();
     let mut violations: Vec<J> = Vec::new();
     let mut skipped = 0u64;
+    // runs executed earlier in this process: the process history of a later run
+    let mut executed: Vec<u64> = Vec::new();
     let mut r = first_run + si;
     while r < first_run + runs {
         if t0.elapsed().as_secs_f64() > budget_s {
@@ -201,6 +203,8 @@ fn cmd_run(a: &Args) {
                 ("first_detail", J::s(v0.detail.clone())),
                 ("minimisation_attempts", J::U(attempts)),
                 ("reproduced_in_process", J::Bool(reproduced)),
+                ("first_spec", J::s(spec0.render())),
+                ("runs_executed_before_in_this_process", J::A(executed.iter().map(|x| J::U(*x)).collect())),
                 ("scenario", J::O(best.explicit.clone())),
             ]);
             let _ = std::fs::create_dir_all(&replay_dir);
@@ -215,6 +219,7 @@ fn cmd_run(a: &Args) {
             // one minimised, replayable violation per worker is enough to fail the check
             break;
         }
+        executed.push(r);
         r += sn;
     }
     let mut j = stats_json(&st, t0.elapsed().as_secs_f64());
@@ -252,6 +257,14 @@ fn cmd_replay(a: &Args) {
     let spec = Spec::parse(a.kv.get("spec").map(|s| s.as_str()).unwrap_or(""));
     let expect = a.kv.get("expect").cloned();
     let mut st = Stats::default();
+    // process history: runs that were executed in the same process before the recorded one
+    if let Some(list) = a.kv.get("prefix-runs") {
+        let empty = Spec::default();
+        for r in list.split(',').filter_map(|x| x.trim().parse::<u64>().ok()) {
+            let mut scratch = Stats::default();
+            let _ = execute(prop, f, seed, r, thorough, &empty, &mut scratch);
+        }
+    }
     let o = execute(prop, f, seed, run, thorough, &spec, &mut st);
     for (k, (n, d, _)) in &st.findings {
         println!("REPLAY finding key={} count={} detail={}", k, n, d);
